@@ -191,7 +191,35 @@ fn layout(t: Tier) -> Layout {
         n_edge: SITES.len() * EDGE_MAX,
         n_budget: SITES.len(),
         n_uniform: t.pick(500, 25000),
-        n_observe: SITES.len() + 1 + 2,
+        n_observe: SITES.len() + 1 + 2 + C14_PAR,
+    }
+}
+
+const C14_PAR: usize = 24;
+pub fn isolated_c14(t: Tier, i: usize) -> bool {
+    i >= runs_c14(t) - C14_PAR && i % 2 == 0
+}
+
+/// Two simulated caller threads draw from the REAL generator at once (worker process of its own):
+/// several calls each, same site or two different ones. What they obtain must differ; the switch
+/// points are the seam draws and whatever std::sync primitive the generator touches.
+fn real_generator_two_callers(p: &mut Prng, w: &mut World) {
+    let sites = ["sm2.keygen", "sm2.sign", "sm2.encrypt", "sm9.master.enc", "sm9.sign", "sm9.encrypt", "sm9.kex1a"];
+    let sa = *p.pick(&sites);
+    let sb = if p.chance(1, 2) { sa } else { *p.pick(&sites) };
+    let (ia, ib) = (p.fork(), p.fork());
+    site_call_mode(&mut ia.clone(), w, "pa", sa, json!({"real": true}), 1);
+    site_call_mode(&mut ib.clone(), w, "pb", sb, json!({"real": true}), 1);
+    let call_op = |inputs: &Prng, w: &World, pfx: &str, site: &str| -> Option<Value> {
+        let mut probe = w.fork();
+        site_call_mode(&mut inputs.clone(), &mut probe, pfx, site, json!({"real": true}), 2);
+        probe.history.last().cloned().filter(|o| o.get("rng").is_some())
+    };
+    if let (Some(a), Some(b)) = (call_op(&ia, w, "pa", sa), call_op(&ib, w, "pb", sb)) {
+        for _ in 0..p.range(2, 6) {
+            w.exec(par(a.clone(), b.clone(), &par_order(p)));
+        }
+        w.bump("history.real-generator-two-callers");
     }
 }
 
@@ -344,6 +372,10 @@ pub fn run_c14(p: &mut Prng, t: Tier, i: usize, sink: &mut Sink) {
         w.exec(json!({"op":"c14.observe","site":site,"n":observe_count(t, site),"seed":p.next_u64()}));
         w.exec(json!({"op":"c14.stats","group":group}));
         w.bump(&format!("history.m3-observe-{site}"));
+        sink.done(w);
+    } else if i >= SITES.len() + 3 {
+        real_generator_two_callers(p, &mut w);
+        w.objs.kex.clear();
         sink.done(w);
     } else if i < SITES.len() + 2 {
         // bulk: enough scalars for the birthday bound of a 32-bit (SM9: ~36-bit) internal value
